@@ -686,6 +686,24 @@ def ident_rule(ctx, sites):
                             inits.append(sir.expr_str(fl["e"]))
     obs.append(ob("C02.ident/offset", bool(inits) and all(i in ("VAR_NAME_INDEX_PRESERVE", "self.ident_id_inc") for i in inits), where,
                   "public identifier counters start at VAR_NAME_INDEX_PRESERVE=%d or copy the parent's: %s" % (preserve, inits)))
+    # a writer created for a nested function continues the numbering of the function it is nested in (`align`): otherwise its
+    # identifiers restart at `a` and shadow the enclosing loop / slot variables
+    news, unaligned = 0, []
+    for g in tc.fns:
+        if not g.body or g.module[:2] != ["proc_gen", "tag"]:
+            continue
+        for blk in sir.walk(g.body):
+            if blk.get("k") != "block":
+                continue
+            for i_, st_ in enumerate(blk["stmts"]):
+                if st_.get("k") == "local" and st_["pat"].get("k") == "p_ident" and st_.get("init") is not None and st_["init"].get("k") == "call" and (sir.call_path(st_["init"]) or "").endswith("JsTopScopeWriter::new"):
+                    news += 1
+                    nm = st_["pat"]["name"]
+                    aligned = any(x.get("k") == "mcall" and x["m"] == "align" and sir.expr_str(x["recv"]) == nm for later in blk["stmts"][i_ + 1:] for x in sir.walk(later))
+                    if not aligned:
+                        unaligned.append("%s (in %s)" % (nm, g.name))
+    obs.append(ob("C02.ident/nested-align", not unaligned and news >= 2, "proc_gen/tag.rs", "%d nested writers, each aligned with the writer of the enclosing function" % news if not unaligned else "nested writer(s) not aligned: %s" % unaligned,
+                  witness=None if not unaligned else "<x wx:for=..><y slot:v>{{item}}{{v}}</y></x>: the slot variable shadows the loop item"))
     priv = [g for g in tc.fns if g.name == "gen_private_ident" and g.body]
     priv_ok = False
     for g in priv:
